@@ -141,13 +141,23 @@ package pubsub
 //@   property C14
 //@   cancellable
 
+// The gater's maintenance loop: one decayStats (decay and expiry of unconnected statistics, C13)
+// per tick.
 //@ func (*peerGater).background
-//@   property C14
+//@   property C14 C13
 //@   cancellable ctx
+//@   noframe
+//@   loop 1 step decay-on-every-tick: calls((*peerGater).decayStats) - iter(calls((*peerGater).decayStats)) == received(tick.C) - iter(received(tick.C))
 
+// The scorer's maintenance loop: every tick of the decay ticker runs exactly one refreshScores
+// (C10: periodic decay; C13: expiry of retained statistics), every tick of the delivery-record
+// ticker one gcDeliveryRecords, and nothing else triggers them.
 //@ func (*peerScore).background
-//@   property C14
+//@   property C14 C10 C13
 //@   cancellable ctx
+//@   noframe
+//@   loop 1 step decay-on-every-tick: calls((*peerScore).refreshScores) - iter(calls((*peerScore).refreshScores)) == received(refreshScores.C) - iter(received(refreshScores.C))
+//@   loop 1 step records-collected-on-every-tick: calls((*peerScore).gcDeliveryRecords) - iter(calls((*peerScore).gcDeliveryRecords)) == received(gcDeliveryRecords.C) - iter(received(gcDeliveryRecords.C))
 
 //@ func (*validation).validateWorker
 //@   property C14
